@@ -124,11 +124,15 @@ func (pcks PublicKeySwitchProtocol) AggregateShares(share1, share2 PublicKeySwit
 // KeySwitch performs the actual keyswitching operation on a ciphertext ct and put the result in opOut
 func (pcks PublicKeySwitchProtocol) KeySwitch(ctIn *rlwe.Ciphertext, combined PublicKeySwitchShare, opOut *rlwe.Ciphertext) {
 
-	level := ctIn.Level()
+	// The shares are generated at the smallest of the levels of the share and of the ciphertext:
+	// the result is a ciphertext at that level.
+	level := utils.Min(ctIn.Level(), combined.Level())
 
 	if ctIn != opOut {
 		opOut.Resize(ctIn.Degree(), level)
 		*opOut.MetaData = *ctIn.MetaData
+	} else {
+		opOut.Resize(opOut.Degree(), level)
 	}
 
 	pcks.params.RingQ().AtLevel(level).Add(ctIn.Value[0], combined.Value[0], opOut.Value[0])
